@@ -153,7 +153,9 @@ enum ImportedExports {
 impl ImportedExports {
   pub(crate) fn from_file_dep_name(dep_name: &FileDepName) -> Self {
     match dep_name {
-      FileDepName::Star => ImportedExports::Star,
+      // a namespace object (`import * as ns`, `export * as ns`) has the
+      // module's default export as `ns.default`
+      FileDepName::Star => ImportedExports::StarWithDefault,
       FileDepName::Name(value) => {
         let mut named_exports = NamedSubset::default();
         named_exports.add(value.clone());
@@ -871,6 +873,9 @@ impl<'a> PublicRangeFinder<'a> {
             }
           }
         }
+
+        // `export *` never re-exports the default export of its target
+        named_exports.swap_remove("default");
 
         if !named_exports.is_empty()
           && let Some(re_export_all_nodes) = module_info.re_export_all_nodes()
